@@ -125,14 +125,14 @@ Definition run_fs (arg : V) : V :=
   if k =? 3 then of_result vints (fs_open f (vint (vnth 2 arg))) else
   fail EOther.
 
-(* access-mode call sequences (C08): [[1] | [2] | [3] | [4] | [5; kind(0 MWrite,1 MSetD3,2 MSet); valid] | [6; rkind(0 RAuto,1 RPlain,2 REq)] | [7] ...]
+(* access-mode call sequences (C08): [[1] | [2] | [3] | [4] | [5; kind(0 MWrite,1 MSetD3,2 MSet); valid] | [6; rkind(0 RAuto,1 RPlain,2 REq)] | [7] copy-switch | [8] clobber | [9] restore ...]
    -> per call [raised; disk writes so far; handle (0 none, 1 open rb, 2 open r+b, 3 closed); inside] *)
 Definition acall_of_v (v : V) : acall :=
   let k := vint (vnth 0 v) in
   if k =? 1 then AllowWrite else if k =? 2 then Enter else if k =? 3 then ExitNormal else
   if k =? 4 then ExitExn else
   if k =? 5 then Mutator (if vint (vnth 1 v) =? 0 then MWrite else if vint (vnth 1 v) =? 1 then MSetD3 else MSet) (vint (vnth 2 v) =? 1) else
-  if k =? 7 then CopySwitch else
+  if k =? 7 then CopySwitch else if k =? 8 then Clobber else if k =? 9 then Restore else
   Reader (if vint (vnth 1 v) =? 0 then RAuto else if vint (vnth 1 v) =? 1 then RPlain else REq).
 Definition handle_code (h : handle) : Z :=
   match h with HNone => 0 | HOpen RB => 1 | HOpen RWB => 2 | HClosed => 3 end.
